@@ -15,7 +15,7 @@ def seed_files(exe, fmts, rate, outdir):
         p = os.path.join(outdir, "seed_%x_%d.bin" % (fmt, ch))
         rt = scen.route_for(fmt)
         S.add("file 1 new", "open 0 %s w 1 %d %d %d" % (rt, fmt, ch, rate), "setstr 0 1 5469746c65", "setstr 0 4 417274697374", "setstr 0 5 436f6d6d656e74",
-              "setchunk 0 41424344 9 3", "write 0 %s f 100 gen noise 11 0" % T, "close 0",
+              "setchunk 0 41424344 9 3", "setmeta 0 cues 3 5 3", "setmeta 0 bext 4 9 30", "setmeta 0 cart 5 6 12", "setmeta 0 chmap 1 1", "write 0 %s f 100 gen noise 11 0" % T, "close 0",
               "open 1 %s r 1 %d %d %d" % (rt, fmt if scen.major(fmt) == scen.RAW else 0, ch, rate), "close 1", "file 1 save %s" % p)
         paths.append((fmt, ch, p))
     sp, ep = os.path.join(outdir, "seed.script"), os.path.join(outdir, "seed.ndjson")
